@@ -1115,6 +1115,8 @@ func c05Directed(c *harness.Ctx) {
 // ---------------------------------------------------------------------------------------------
 // C07 histories
 
+var c07SelfHandOver = true
+
 func c07Histories(c *harness.Ctx) {
 	nh := c.Scale(240, 4000)
 	for h := 0; h < nh; h++ {
@@ -1185,8 +1187,11 @@ func c07Histories(c *harness.Ctx) {
 					continue
 				}
 				next := u.Pick(u.Actors)
-				if bytes.Equal(next, cur) {
+				if bytes.Equal(next, cur) && (u.W.CopyOnLoad || !c07SelfHandOver) {
 					continue
+				}
+				if bytes.Equal(next, cur) {
+					c.R.Cover("C07/handover-to-the-holder-itself")
 				}
 				l := u.HandOver(cur, next, tok)
 				if l.OK {
